@@ -20,6 +20,7 @@ import (
 	"fmt"
 	"io"
 	"math"
+	"sort"
 	"time"
 
 	"github.com/pkg/errors"
@@ -224,6 +225,7 @@ func (b *backend) GetPartitions(ctx context.Context, r *proto.ListPartitionReque
 		klog.Errorf("backend getPartitions %v return err %v", r, err)
 		return nil, err
 	}
+	partitions = b.normalizePartitions(partitions)
 	resp = &proto.ListPartitionResponse{
 		Header:       responseHeader(rev),
 		PartitionNum: int64(len(partitions)),
@@ -241,6 +243,27 @@ func (b *backend) GetPartitions(ctx context.Context, r *proto.ListPartitionReque
 		}
 	}
 	return resp, nil
+}
+
+// normalizePartitions sorts the partitions reported by the storage engine and pulls every inner border back to the
+// index record of the key it splits (as the scanner does for its own workers), so that a client which streams
+// [PartitionKeys[i], PartitionKeys[i+1]) always sees all versions of a key in one piece and in ascending order.
+func (b *backend) normalizePartitions(ps []storage.Partition) []storage.Partition {
+	sort.Slice(ps, func(i, j int) bool {
+		return bytes.Compare(ps[i].Start, ps[j].Start) < 0
+	})
+	// an internal key is at least {magic}{split}{revision}
+	const minInternalKeyLen = 4 + 1 + 8
+	for i := 0; i < len(ps)-1; i++ {
+		if len(ps[i].End) >= minInternalKeyLen {
+			userKey, revision, err := b.coder.Decode(ps[i].End)
+			if err == nil && revision != 0 {
+				ps[i].End = b.coder.EncodeRevisionKey(userKey)
+			}
+		}
+		ps[i+1].Start = ps[i].End
+	}
+	return ps
 }
 
 // ListByStream implements Backend interface
